@@ -114,8 +114,10 @@ def cases(sh, tier):
                     yield {"a": s, "op": "reshape", "target": tgt[:pos] + ["new"] + tgt[pos:], "pre": None}
                 # from an already grouped array
                 if nd >= 2:
-                    yield {"a": s, "op": "reshape", "target": tgt, "pre": [dims[0], dims[-1]]}
-                    yield {"a": s, "op": "reshape", "target": tgt, "pre": list(dims[::-1])[:2]}
+                    for pre in ([dims[0], dims[-1]], list(dims[::-1])[:2]):
+                        yield {"a": s, "op": "reshape", "target": tgt, "pre": pre}
+                        for pos in range(len(tgt) + 1):      # ... combined with the insertion of a new singleton dimension
+                            yield {"a": s, "op": "reshape", "target": tgt[:pos] + ["new"] + tgt[pos:], "pre": pre}
         # dropping a singleton dimension
         for d in sing:
             rest = [x for x in dims if x != d]
